@@ -15,54 +15,64 @@ private theorem lor16 (k x : Nat) (hx : x < 16) : (k * 16) ||| x = k * 16 + x :=
   rw [Nat.mul_comm]; exact this.symm
 
 /-- The TTL written by SetEDNS0 is a 32-bit value with version byte 0. -/
-theorem set_ttl_shape (len ext : Nat) (d : Bool) :
-    (setEDNS0 len ext d).ttl < 4294967296 ∧ (setEDNS0 len ext d).ttl / 65536 % 256 = 0 := by
+theorem set_ttl_shape (p : Hdr) (len ext : Nat) (d : Bool) :
+    (setEDNS0 p len ext d).ttl < 4294967296 ∧ (setEDNS0 p len ext d).ttl / 65536 % 256 = 0 := by
   unfold setEDNS0; cases d <;> simp <;> omega
 
 /-- Extended RCode round trip: the upper 8 bits travel in the TTL, the lower 4 in the header. -/
-theorem extRCode_roundtrip (len ext : Nat) (d : Bool) (hext : ext < 4096) :
-    extendedRCode (setEDNS0 len ext d).ttl (ext % 16) = ext := by
-  have hv := (set_ttl_shape len ext d).2
+theorem extRCode_roundtrip (p : Hdr) (len ext : Nat) (d : Bool) (hext : ext < 4096) :
+    extendedRCode (setEDNS0 p len ext d).ttl (ext % 16) = ext := by
+  have hv := (set_ttl_shape p len ext d).2
   unfold extendedRCode
   rw [if_pos hv, lor16 _ _ (by omega)]
   unfold setEDNS0; cases d <;> simp <;> omega
 
 /-- DNSSEC-OK round trip (for every 16-bit `ext`, representable or not). -/
-theorem dnssec_roundtrip (len ext : Nat) (d : Bool) :
-    dnssecAllowed (setEDNS0 len ext d).ttl = d := by
+theorem dnssec_roundtrip (p : Hdr) (len ext : Nat) (d : Bool) :
+    dnssecAllowed (setEDNS0 p len ext d).ttl = d := by
   unfold dnssecAllowed setEDNS0; cases d <;> simp <;> omega
 
 /-- Type and Class: OPT, and the payload size is kept. -/
-theorem class_roundtrip (len ext : Nat) (d : Bool) (hlen : len < 65536) :
-    (setEDNS0 len ext d).cls = len ∧ (setEDNS0 len ext d).typ = 41 := by
+theorem class_roundtrip (p : Hdr) (len ext : Nat) (d : Bool) (hlen : len < 65536) :
+    (setEDNS0 p len ext d).cls = len ∧ (setEDNS0 p len ext d).typ = 41 := by
   unfold setEDNS0 typeOPT; simp; omega
 
+/-- SetEDNS0 overwrites: the header after the call does not depend on what it held before (an earlier
+SetEDNS0 with another DO/RCode, an ordinary record TTL such as 86400, any Class). -/
+theorem set_independent_of_prior (p p' : Hdr) (len ext : Nat) (d : Bool) :
+    setEDNS0 p len ext d = setEDNS0 p' len ext d := rfl
+
+/-- Histories: after any sequence of SetEDNS0 calls on one header, only the last call matters. -/
+theorem set_history (p : Hdr) (calls : List (Nat × Nat × Bool)) (len ext : Nat) (d : Bool) :
+    setEDNS0 (calls.foldl (fun h c => setEDNS0 h c.1 c.2.1 c.2.2) p) len ext d =
+      setEDNS0 { typ := 0, cls := 0, ttl := 0 } len ext d := rfl
+
 /-- C38 at full strength: all 4096 × 65536 × 2 combinations. -/
-theorem holds (len ext : Nat) (d : Bool) (hext : ext < 4096) (hlen : len < 65536) :
-    extendedRCode (setEDNS0 len ext d).ttl (ext % 16) = ext ∧
-    dnssecAllowed (setEDNS0 len ext d).ttl = d ∧
-    (setEDNS0 len ext d).cls = len :=
-  ⟨extRCode_roundtrip len ext d hext, dnssec_roundtrip len ext d, (class_roundtrip len ext d hlen).1⟩
+theorem holds (p : Hdr) (len ext : Nat) (d : Bool) (hext : ext < 4096) (hlen : len < 65536) :
+    extendedRCode (setEDNS0 p len ext d).ttl (ext % 16) = ext ∧
+    dnssecAllowed (setEDNS0 p len ext d).ttl = d ∧
+    (setEDNS0 p len ext d).cls = len :=
+  ⟨extRCode_roundtrip p len ext d hext, dnssec_roundtrip p len ext d, (class_roundtrip p len ext d hlen).1⟩
 
 /-- The fields do not interfere: the reported extended RCode does not depend on DO or the
 payload size, and the reported DO bit does not depend on the RCode or the payload size. -/
-theorem independent (len len' ext ext' r : Nat) (d d' : Bool) :
-    extendedRCode (setEDNS0 len ext d).ttl r = extendedRCode (setEDNS0 len' ext d').ttl r ∧
-    dnssecAllowed (setEDNS0 len ext d).ttl = dnssecAllowed (setEDNS0 len' ext' d).ttl := by
+theorem independent (p p' : Hdr) (len len' ext ext' r : Nat) (d d' : Bool) :
+    extendedRCode (setEDNS0 p len ext d).ttl r = extendedRCode (setEDNS0 p' len' ext d').ttl r ∧
+    dnssecAllowed (setEDNS0 p len ext d).ttl = dnssecAllowed (setEDNS0 p' len' ext' d).ttl := by
   constructor
-  · have h1 := (set_ttl_shape len ext d).2
-    have h2 := (set_ttl_shape len' ext d').2
-    have key : ∀ (l : Nat) (b : Bool), (setEDNS0 l ext b).ttl / 16777216 = ext / 16 % 256 := by
-      intro l b; unfold setEDNS0; cases b <;> simp <;> omega
+  · have h1 := (set_ttl_shape p len ext d).2
+    have h2 := (set_ttl_shape p' len' ext d').2
+    have key : ∀ (q : Hdr) (l : Nat) (b : Bool), (setEDNS0 q l ext b).ttl / 16777216 = ext / 16 % 256 := by
+      intro q l b; unfold setEDNS0; cases b <;> simp <;> omega
     unfold extendedRCode
     rw [if_pos h1, if_pos h2, key, key]
   · rw [dnssec_roundtrip, dnssec_roundtrip]
 
 /-- What happens outside the representable range (uint16 `ext ≥ 4096`): the top 4 bits are lost,
 nothing else. (Not part of C38; documents the model on the whole uint16 domain.) -/
-theorem extRCode_truncates (len ext : Nat) (d : Bool) :
-    extendedRCode (setEDNS0 len ext d).ttl (ext % 16) = ext % 4096 := by
-  have hv := (set_ttl_shape len ext d).2
+theorem extRCode_truncates (p : Hdr) (len ext : Nat) (d : Bool) :
+    extendedRCode (setEDNS0 p len ext d).ttl (ext % 16) = ext % 4096 := by
+  have hv := (set_ttl_shape p len ext d).2
   unfold extendedRCode
   rw [if_pos hv, lor16 _ _ (by omega)]
   unfold setEDNS0; cases d <;> simp <;> omega
@@ -105,9 +115,9 @@ theorem gen_extendedRCode_eq (ttl r : Nat) : Gen.C38.extendedRCode ttl r = some 
   · rw [if_pos (by omega), if_pos h]
   · rw [if_neg (by omega), if_neg h]
 
-theorem gen_setEDNS0_eq (t0 c0 l0 len ext : Nat) (d : Bool) (hext : ext < 4096) (hlen : len < 65536) :
-    Gen.C38.setEDNS0 t0 c0 l0 len ext d =
-      some ((setEDNS0 len ext d).typ, (setEDNS0 len ext d).cls, (setEDNS0 len ext d).ttl) := by
+theorem gen_setEDNS0_eq (p : Hdr) (len ext : Nat) (d : Bool) (hext : ext < 4096) (hlen : len < 65536) :
+    Gen.C38.setEDNS0 p.typ p.cls p.ttl len ext d =
+      some ((setEDNS0 p len ext d).typ, (setEDNS0 p len ext d).cls, (setEDNS0 p len ext d).ttl) := by
   unfold Gen.C38.setEDNS0 setEDNS0 typeOPT
   have hor : ext % 4294967296 / 16 * 16777216 ||| 32768 = ext % 4294967296 / 16 * 16777216 + 32768 := by
     have := Nat.two_pow_add_eq_or_of_lt (i := 24) (b := 32768) (by decide) (ext % 4294967296 / 16)
@@ -120,7 +130,7 @@ theorem gen_consts_eq :
     Gen.C38.edns0DNSSECOKMask = 16744448 ∧ Gen.C38.typeOPT = typeOPT := by decide
 
 /-! ### Non-vacuity -/
-example : setEDNS0 1232 0xabc true = { typ := 41, cls := 1232, ttl := 0xab008000 } := by decide
+example : setEDNS0 { typ := 1, cls := 1, ttl := 86400 } 1232 0xabc true = { typ := 41, cls := 1232, ttl := 0xab008000 } := by decide
 example : extendedRCode 0xab008000 0xc = 0xabc ∧ dnssecAllowed 0xab008000 = true := by decide
 example : extendedRCode 0xab018000 0xc = 0xc ∧ dnssecAllowed 0xab018000 = false := by decide
 
